@@ -803,6 +803,27 @@ def s_history(draw, tier, Ls, cyclic, imag=(False,), orders=(1, 2, 4), max_ops=4
     }
 
 
+def fold_value(tensors, output):
+    """einsum of a long list of tensors folded in left to right (numpy.einsum alone is limited to 52 labels):
+    a label is summed as soon as no later tensor and not the output carries it."""
+    cur_a, cur_l = None, None
+    for n, (a, l) in enumerate(tensors):
+        if cur_a is None:
+            cur_a, cur_l = np.asarray(a), list(l)
+            continue
+        later = set(output)
+        for _, l2 in tensors[n + 1:]:
+            later.update(l2)
+        keep = [x for x in dict.fromkeys(list(cur_l) + list(l)) if x in later]
+        ids = {}
+        f = lambda ls: [ids.setdefault(x, len(ids)) for x in ls]
+        cur_a = np.einsum(cur_a, f(cur_l), np.asarray(a), f(l), f(keep))
+        cur_l = keep
+    ids = {}
+    f = lambda ls: [ids.setdefault(x, len(ids)) for x in ls]
+    return np.einsum(cur_a, f(cur_l), f(list(output)))
+
+
 def mps_dense(psi, L):
     return np.asarray(tn_value(psi, [psi.site_ind(i) for i in range(L)]), dtype=np.complex128).reshape(-1)
 
@@ -1124,8 +1145,11 @@ def strat_hist(**kw):
 def s_conv(draw, tier, Ls, cyclic, orders=(1, 2, 4), bsym=(False,), bonds=(1, 2, 3)):
     ham = draw(s_ham1d(Ls=Ls, cyclic=(cyclic,), bsym=bsym, ds=(2,), dmax_dense=128))
     ham["scale"] = 1.0
+    order = draw(st.sampled_from(orders))
+    if cyclic and order == 4 and ham["L"] <= 4:
+        order = 2  # 11-31 sweeps on a 3/4 site ring take bond dimensions into the hundreds (minutes)
     return {"ham": ham, "psi": {"bond": draw(st.sampled_from(bonds)), "seed": draw(A.seeds), "dtype": "complex128", "scale": 1.0},
-            "order": draw(st.sampled_from(orders)), "route": draw(st.sampled_from(["update_to", "update_to", "at_times"])),
+            "order": order, "route": draw(st.sampled_from(["update_to", "update_to", "at_times"])),
             "t0": draw(st.sampled_from([0.0, 0.4])), "imag": False}
 
 
@@ -1188,6 +1212,8 @@ def run_conv(case):
     if min(errs) <= floor:
         raise Reject("error reaches the rounding floor")
     slope = fit_slope(ns, errs)
+    # odd rings: queue merging joins n-2 or n-1 (float round-off in `t < T - dt`) of the non-commuting right sweeps, so the
+    # first order coefficient depends on n: predicted slopes 0.60-0.71 for order 2 at n = 1, 2, 4 (observed 0.595-0.74)
     need = 0.5 if odd_cyc else order - 0.35
     if not slope >= need:
         raise Violation("slope", slope=round(slope, 3), need=need, errs=["%.3e" % x for x in errs], **info)
@@ -1298,7 +1324,13 @@ def run_mpo_prop(case):
     mpo = ham.build_mpo_propagator_trotterized(x, order=order, contract_sites=case["contract_sites"], cutoff=0.0, **kw)
     up = ["k%d" % i for i in range(L)]  # documented default upper_ind_id / lower_ind_id
     lo = ["b%d" % i for i in range(L)]
-    got = np.asarray(tn_value(mpo, up + lo), dtype=np.complex128).reshape(d ** L, d ** L)
+    tens = []
+    for i in range(L):
+        # site by site so that the running tensor stays small
+        tens += [(np.asarray(t.data), tuple(t.inds)) for t in mpo.select_tensors("I%d" % i)]
+    if len(tens) != mpo.num_tensors or float(getattr(mpo, "exponent", 0.0)) != 0.0:
+        raise Violation("mpo-site-tags", got=len(tens), want=mpo.num_tensors)
+    got = np.asarray(fold_value(tens, up + lo), dtype=np.complex128).reshape(d ** L, d ** L)
     # default ordering 'sort' greedily groups the sorted pairs: for a chain that is even bonds then odd bonds
     dl = DenseLayers([d] * L, terms, chain_layers(L, False) if L > 2 else [[(0, 1)]])
     want = dl.step_matrix(order, x)
